@@ -1034,8 +1034,10 @@ namespace fixedmath
       result = atan_sum<prec_, atan_11o16, _11o16>( x );
     else if( x < _39o16 )
       result = atan_sum<prec_, atan_19o16, _19o16>( x );
-    else
+    else if( x < (fixed_internal{1}<<36) )
       result = atan_sum<prec_, atan_39o16, _39o16>( x );
+    else //x*c in atan_sum overflows for x above 2^45; arctan(x) = phi/2 - arctan(1/x) and arctan(1/x) is below 2^-20 here
+      result = fixpidiv2.v;
     
     if( !sign_)
       return as_fixed(result);
